@@ -5,6 +5,7 @@ import LogicaModel.OrderLimit
 import LogicaModel.Concertina
 import LogicaModel.Udf
 import LogicaModel.SemJson
+import LogicaModel.CQ
 /-! Request handlers of the line-protocol driver (executable definitions of the models only). -/
 open Lean
 
@@ -194,6 +195,47 @@ def handleUdf (op : String) (j : Json) : Except String Json := do
     return Json.mkObj [("out", toJson (Udf.rangeCte n))]
   | _ => throw ("unknown op " ++ op)
 
+/-! ### CQ: verified compiler of the conjunctive fragment -/
+def cqTerm (j : Json) : Except String CQ.Term :=
+  match j.getObjVal? "var" with
+  | .ok v => do let n ← v.getNat?; pure (.var n)
+  | .error _ => do let c ← j.getObjValAs? Int "const"; pure (.const c)
+
+def cqRule (j : Json) : Except String CQ.Rule := do
+  let head ← j.getObjValAs? (Array Json) "head"
+  let body ← j.getObjValAs? (Array Json) "body"
+  let hs ← head.toList.mapM cqTerm
+  let bs ← body.toList.mapM fun a => do
+    let p ← str a "pred"
+    let args ← a.getObjValAs? (Array Json) "args"
+    let ts ← args.toList.mapM cqTerm
+    pure (⟨p, ts⟩ : CQ.Atom)
+  pure ⟨hs, bs⟩
+
+def cqSExpr : CQ.SExpr → Json
+  | .col t c => Json.arr #[Json.num (Int.ofNat t), Json.num (Int.ofNat c)]
+  | .const v => Json.num (JsonNumber.fromInt v)
+
+def cqRows (rows : List CQ.Row) : Json := Json.arr (rows.map fun r => Json.arr (r.map fun (v : Int) => Json.num (JsonNumber.fromInt v)).toArray).toArray
+
+def handleCQ (j : Json) : Except String Json := do
+  let rules ← j.getObjValAs? (Array Json) "rules"
+  let rs ← rules.toList.mapM cqRule
+  let dbj ← j.getObjVal? "db"
+  let tables : List (String × List CQ.Row) ← match dbj with
+    | .obj kvs => kvs.toList.mapM fun (k, v) => do
+        let rows ← (fromJson? v : Except String (Array (Array Int)))
+        pure (k, rows.toList.map Array.toList)
+    | _ => throw "db must be an object"
+  let db : CQ.DB := fun p => ((tables.find? (fun kv => kv.1 == p)).map (·.2)).getD []
+  let sels := rs.map CQ.compile
+  let selJ := sels.map fun q => Json.mkObj [
+    ("tables", Json.arr (q.tables.map Json.str).toArray),
+    ("conds", Json.arr (q.conds.map fun p => Json.arr #[cqSExpr p.1, cqSExpr p.2]).toArray),
+    ("sel", Json.arr (q.sel.map cqSExpr).toArray)]
+  return Json.mkObj [("selects", Json.arr selJ.toArray), ("denote", cqRows (CQ.denoteRules db rs)),
+                     ("sql_rows", cqRows (CQ.evalUnion db sels))]
+
 def handle (j : Json) : Except String Json := do
   let op ← str j "op"
   if ["strlit", "lex", "useflags", "buildflags"].contains op then handleEscape op j
@@ -202,6 +244,7 @@ def handle (j : Json) : Except String Json := do
   else if ["concertina", "concertina_requires"].contains op then handleConcertina op j
   else if ["argk", "range_cte"].contains op then handleUdf op j
   else if op == "denote" then Sem.handleDenote j
+  else if op == "cq" then handleCQ j
   else throw ("unknown op " ++ op)
 
 end Logica.Ops
